@@ -19,7 +19,7 @@ PROPERTY = "C06"
 LEVEL = "exploration"
 
 ALPHA = [0x00, 0x2D, 0x40, 0x41, 0x5A, 0x5B, 0x60, 0x61, 0x7A, 0x7B, 0xFF]
-CORE_Q = [0x41, 0x61, 0x5A, 0x5B, 0x00, 0x7A, 0x40]
+CORE_Q = [0x41, 0x61, 0x5A, 0x5B, 0x00, 0x7A]
 CORE_T = list(ALPHA)
 ORIGINS = [R.ROOT, (b"example", b""), (b"a", b""), (b"A", b"a", b"")]
 
